@@ -173,6 +173,12 @@ class Taint:
                         if self.tainted_expr(a, tainted, fn, recv):
                             self.sinks.append((fn, n, 'argument of %s(): `%s`' % (nm, src(n)), False, ''))
                 self._bind(fn, n, tainted, recv)
+            elif isinstance(n, (ast.BinOp, ast.AugAssign)) and isinstance(n.op, (ast.FloorDiv, ast.Mod, ast.BitAnd, ast.BitOr,
+                                                                             ast.BitXor, ast.LShift, ast.RShift)):
+                operands = [n.left, n.right] if isinstance(n, ast.BinOp) else [n.target, n.value]
+                if any(isinstance(m, ast.Name) and m.id in tainted for o in operands for m in ast.walk(o)):
+                    self.sinks.append((fn, n, 'value-sensitive operator %s in `%s` (floor division / modulo of a quantity '
+                                              'scaled by the weight)' % (type(n.op).__name__, src(n)[:60]), False, ''))
             elif isinstance(n, ast.Subscript):
                 if self.tainted_expr(n.slice, tainted, fn, recv):
                     self.sinks.append((fn, n, 'subscript index `%s`' % src(n), False, ''))
@@ -217,6 +223,30 @@ class Taint:
                 if isinstance(a, ast.AST) and not pname.startswith(('*', '!')):
                     if self.tainted_expr(a, tainted, fn, recv):
                         self.add(t, pname)
+
+
+def weight_linearity(ctx, rid, modules=('qubovert._pcbo',)):
+    """The weight enters penalties only linearly (products, true division, sums): no floor division / modulo /
+    comparison / coercion of anything scaled by lam.  Subset of R16.1 usable as a premise of F >= lam."""
+    P = ctx.prog
+    T = Taint(ctx)
+    for f in P.all_funcs():
+        if f.module.name in modules and 'lam' in f.all_params:
+            T.add(f, 'lam')
+    T.run()
+    seen = set()
+    n = 0
+    for fn, node, what, ok, why in T.sinks:
+        k = (fn.qual, what)
+        if k in seen:
+            continue
+        seen.add(k)
+        n += 1
+        ctx.inst(rid, fn, enclosing_stmt(node) if not isinstance(node, ast.stmt) else node, ok,
+                 ("allowed use of the weight: %s" % what) if ok else
+                 "the weight reaches a %s: the added penalty is not lam times a fixed non-negative function, so "
+                 "`>= lam on violating assignments` fails for some weights" % what)
+    return n
 
 
 def rules(ctx):
@@ -270,6 +300,15 @@ def rules(ctx):
         ctx.inst('R16.2', ds, r, okc,
                  "result constructed empty by the model's own class" if okc else
                  "result of subs is not constructed as self.__class__(): type / bookkeeping of the result differ")
+    for c in calls_in(ds.node):
+        if is_name(c.func, 'float', 'int', 'round', 'complex') and c.args:
+            a0 = c.args[0]
+            okf = isinstance(a0, ast.Call) and call_name(a0) == 'subs'
+            ctx.inst('R16.2', ds, c, okf,
+                     "numeric conversion applied only to the result of a substitution" if okf else
+                     "`%s` converts a value that may be an untouched coefficient: coefficients the substitution does not "
+                     "concern (exact integers, other symbols) are altered, so subs(...) differs from building with the number"
+                     % src(c))
     loops = [n for n in g.stmts() if isinstance(n, ast.For)]
     okl = False
     for lp in loops:
